@@ -48,6 +48,8 @@ pub enum Case {
     Stall { kind: u8, target: u8, v6: bool, timeout_ms: u16, retries: u8, shape: u8 },
     /// Eco / HTTP against an answering server at the IPv4 or IPv6 loopback address
     HttpOk { v6: bool, idx: u64 },
+    /// Any entry point that takes timeout settings against a peer that takes datagrams and connections on one port and never answers
+    SilentAll { entry: Entry, v6: bool, timeout_ms: u16, retries: u8, shape: u8 },
     UdpRaw { v6: bool, send_len: usize, reply_len: usize, req_size: Option<usize>, salt: u8 },
     TcpRaw { v6: bool, send_len: usize, reply_len: usize, salt: u8 },
 }
@@ -143,6 +145,54 @@ fn stalled_listener(ip: IpAddr) -> Option<StalledListener> {
     None
 }
 
+/// Every entry point that accepts timeout settings (protocol functions; the table games are added by the caller).
+fn timeout_entries() -> Vec<Entry> {
+    let mut v = vec![
+        Entry::Valve { engine: EngineSel::SourceNone, players: 2, rules: 2, check: false },
+        Entry::Valve { engine: EngineSel::GoldSrc(false), players: 1, rules: 1, check: true },
+        Entry::Gs1,
+        Entry::Gs1Vars,
+        Entry::Gs2,
+        Entry::Gs3,
+        Entry::Gs3Vars,
+        Entry::Quake(1),
+        Entry::Quake(2),
+        Entry::Quake(3),
+        Entry::Unreal2 { players: 2, rules: 2 },
+        Entry::McAuto,
+        Entry::McJava,
+        Entry::McBedrock,
+        Entry::McLegacy,
+        Entry::Ffow,
+        Entry::Savage2,
+        Entry::Jc2m,
+        Entry::Mindustry,
+        Entry::TheShip,
+    ];
+    for g in 0 .. 3 {
+        v.push(Entry::McLegacySpecific(g));
+    }
+    v
+}
+
+/// A UDP socket and a TCP listener on the same port; nothing is ever read or answered.
+struct SilentPeer {
+    port: u16,
+    _udp: std::net::UdpSocket,
+    _tcp: std::net::TcpListener,
+}
+
+fn silent_peer(ip: IpAddr) -> Option<SilentPeer> {
+    for _ in 0 .. 20 {
+        let tcp = std::net::TcpListener::bind(SocketAddr::new(ip, 0)).ok()?;
+        let port = tcp.local_addr().ok()?.port();
+        if let Ok(udp) = std::net::UdpSocket::bind(SocketAddr::new(ip, port)) {
+            return Some(SilentPeer { port, _udp: udp, _tcp: tcp });
+        }
+    }
+    None
+}
+
 pub struct C12;
 
 const SLACK: Duration = Duration::from_millis(2500);
@@ -162,7 +212,7 @@ impl Prop for C12 {
          reference servers in the fault injector. The query runs on a helper thread and must deliver Err of the matching class (PacketReceive; SocketConnect when refused; Ok when \
          nothing is withheld) within attempts x steps x timeout + 2.5 s slack; still blocked at the deadline = violation. (a') the other blocking steps: connecting to a listener whose accept queue is full (Java, legacy, Eco/HTTP: bounded by the \
          connect timeout, SocketConnect), writing 64 MiB to a peer that never reads (raw TCP socket: bounded by the write timeout, PacketSend), Eco/HTTP (ureq) against a server that \
-         accepts and stays silent / sends headers and the start of the body then stalls / refuses (any error value within the bound), each x IPv4/IPv6 x 2 timeouts x 3 shapes. (a'') Eco/HTTP against an answering server at 127.0.0.1 and ::1: the query succeeds and the peer sees exactly one GET /frontpage carrying its own address as Host. (b) raw socket fidelity through the re-exported socket \
+         accepts and stays silent / sends headers and the start of the body then stalls / refuses (any error value within the bound), each x IPv4/IPv6 x 2 timeouts x 3 shapes. (a+) every entry point that accepts timeout settings (all protocol functions, the five Minecraft variants and their chains, the per-game functions with timeouts, and the generic dispatch for every table game) against a peer that takes datagrams and connections on one port and never answers: PacketReceive / AutoQuery within the same bound, with the same timeout shapes. (a'') Eco/HTTP against an answering server at 127.0.0.1 and ::1: the query succeeds and the peer sees exactly one GET /frontpage carrying its own address as Host. (b) raw socket fidelity through the re-exported socket \
          implementations: payloads of 0, 1, 1023, 1024, 1025, 1472, 6144, 65507 and random sizes each way with requested receive sizes around the payload size: the server must see \
          exactly the bytes sent and the client must get exactly the first min(size, len) bytes (TCP: everything until the close). non-trivial = a fault after at least one successful \
          reply, IPv6, or a payload above 1024 bytes; distinct = digest of the case"
@@ -229,6 +279,41 @@ impl Prop for C12 {
                 }
             }
         }
+        {
+            let protos = timeout_entries();
+            let mut games: Vec<&str> = gamedig::GAMES.keys().copied().collect();
+            games.sort();
+            let mut k = 0usize;
+            for e in &protos {
+                for v6 in [false, true] {
+                    for timeout_ms in [40u16, 120] {
+                        for retries in 0u8 ..= 2 {
+                            for shape in 0u8 .. 3 {
+                                k += 1;
+                                // quick: every entry point with each IP version and each shape once, retries 0 and 1
+                                if tier == Tier::Quick && !(timeout_ms == 40 && retries < 2 && (shape + retries + v6 as u8) % 3 == (k % 3) as u8 || (timeout_ms == 40 && retries == 0 && shape > 0)) {
+                                    continue;
+                                }
+                                v.push(Case::SilentAll { entry: e.clone(), v6, timeout_ms, retries, shape });
+                            }
+                        }
+                    }
+                }
+            }
+            for (i, g) in games.iter().enumerate() {
+                if *g == "eco" {
+                    continue; // HTTP: the stall cases above
+                }
+                for v6 in [false, true] {
+                    for shape in 1u8 .. 3 {
+                        if tier == Tier::Quick && (i + shape as usize + v6 as usize) % 4 != 0 {
+                            continue;
+                        }
+                        v.push(Case::SilentAll { entry: Entry::Generic { game: g.to_string(), extra: None }, v6, timeout_ms: 40, retries: (i % 2) as u8, shape });
+                    }
+                }
+            }
+        }
         for v6 in [false, true] {
             for idx in 0 .. tier.pick(6u64, 200) {
                 v.push(Case::HttpOk { v6, idx });
@@ -258,6 +343,46 @@ impl Prop for C12 {
     fn run(&self, case: &Case) -> Outcome {
         let mut o = Outcome::new();
         match case {
+            Case::SilentAll { entry, v6, timeout_ms, retries, shape } => {
+                let ip = ip_of(*v6);
+                o.label(format!("silent peer: {}", entry.label()));
+                o.label(format!("timeout shape {shape}"));
+                o.label(if *v6 { "ipv6" } else { "ipv4" });
+                o.nontrivial = true;
+                let Some(peer) = silent_peer(ip) else {
+                    o.excluded = Some(format!("cannot bind {ip} (class skipped)"));
+                    o.nontrivial = false;
+                    return o;
+                };
+                let d = Duration::from_millis(*timeout_ms as u64);
+                let t = shaped(0, d, *retries as usize, *shape);
+                let attempts = *retries as u32 + 1;
+                // at most six blocking steps per attempt (the Minecraft chain tries five variants)
+                let limit = d * attempts * 6 + SLACK;
+                let (e2, port) = (entry.clone(), peer.port);
+                let res = bounded(limit, move || e2.call_full(&ip, Some(port), t).map(|_| ()));
+                let name = match entry {
+                    Entry::Generic { game, .. } => format!("games::query[{game}]"),
+                    e => e.sig_name(),
+                };
+                let detail = |extra: serde_json::Value| json!({"ipv6": v6, "timeout_ms": timeout_ms, "retries": retries, "shape": shape, "limit_ms": limit.as_millis(), "info": extra});
+                match res {
+                    None => {
+                        o.fail(format!("C12|{name}|silent peer|still blocked at the deadline (or panicked)"), detail(json!({})));
+                    }
+                    Some((Ok(()), _)) => {
+                        o.fail(format!("C12|{name}|silent peer|wrong outcome|Ok"), detail(json!({})));
+                    }
+                    Some((Err(e), took)) => {
+                        if !matches!(e.kind, GDErrorKind::PacketReceive | GDErrorKind::AutoQuery) {
+                            let v6_unreachable = *v6 && matches!(e.kind, GDErrorKind::PacketSend | GDErrorKind::SocketBind);
+                            let sig = if v6_unreachable { "C12|UdpSocket|IPv6 peer not reachable|PacketSend".to_string() } else { format!("C12|{name}|silent peer|wrong outcome|{:?}", e.kind) };
+                            o.fail(sig, detail(json!({"took_ms": took.as_millis()})));
+                        }
+                    }
+                }
+                drop(peer);
+            }
             Case::HttpOk { v6, idx } => {
                 use crate::models::eco::{eco_state, thread_server, thread_server_v6};
                 o.label(if *v6 { "http-ok-ipv6" } else { "http-ok-ipv4" });
